@@ -125,11 +125,26 @@ def canon_value(v):
         return {k: canon_value(x) for k, x in v.__values__.items()}
     if isinstance(v, dict):
         return {k: canon_value(x) for k, x in v.items()}
+    if isinstance(v, tuple) and v and (v[-1] is None or hasattr(v[-1], "utcoffset")):
+        return lex_of_gtype(v)
     if isinstance(v, (list, tuple, collections.deque)):
         return [canon_value(x) for x in v]
     if isinstance(v, etree._Element):
         return {"__xml__": xmlcanon.node(v, strip_ws=False)}
     return lex_of_native(v)
+
+
+def lex_of_gtype(v):
+    """(year, tz) / (month, day, tz): the value tuples of gYear / gMonthDay, in canonical lexical form"""
+    tz = v[-1]
+    if tz is None:
+        z = ""
+    else:
+        minutes = int(tz.utcoffset(None).total_seconds() // 60)
+        z = "Z" if minutes == 0 else "%s%02d:%02d" % ("-" if minutes < 0 else "+", abs(minutes) // 60, abs(minutes) % 60)
+    if len(v) == 2:
+        return "%04d%s" % (v[0], z)
+    return "--%02d-%02d%s" % (v[0], v[1], z)
 
 
 def lex_of_native(v):
